@@ -21,6 +21,18 @@ func (em ExtendMergerFunc) Merge(inputs []*MergeInput) (*MergeResult, error) {
 		return nil, fmt.Errorf("no source schemas")
 	}
 
+	// a service may call its root operation types anything (schema { query: RootQ });
+	// the merged schema, the routing table and the planner know them by their default names
+	normalized := make([]*MergeInput, 0, len(inputs))
+	for _, input := range inputs {
+		schema, err := withDefaultRootNames(input.Schema)
+		if err != nil {
+			return nil, fmt.Errorf("%s: %w", input.URL, err)
+		}
+		normalized = append(normalized, &MergeInput{Schema: schema, URL: input.URL})
+	}
+	inputs = normalized
+
 	merged := ast.Schema{
 		Types:         make(map[string]*ast.Definition),
 		Directives:    make(map[string]*ast.DirectiveDefinition),
@@ -460,4 +472,93 @@ func isNodeField(f *ast.FieldDefinition) bool {
 	return arg.Name == common.IDFieldName &&
 		isIDType(arg.Type) &&
 		isNullableTypeNamed(f.Type, common.NodeInterfaceName)
+}
+
+// withDefaultRootNames returns the schema with its root operation types named
+// Query, Mutation and Subscription (the schema itself if they already are).
+// Sub-requests name the operation type by keyword, never by the name of the type,
+// so a service is not affected by the name the gateway uses.
+func withDefaultRootNames(schema *ast.Schema) (*ast.Schema, error) {
+	renames := map[string]string{}
+	for def, name := range map[*ast.Definition]string{
+		schema.Query:        common.QueryObjectName,
+		schema.Mutation:     common.MutationObjectName,
+		schema.Subscription: common.SubscriptionObjectName,
+	} {
+		if def != nil && def.Name != name {
+			renames[def.Name] = name
+		}
+	}
+	if len(renames) == 0 {
+		return schema, nil
+	}
+	for _, name := range renames {
+		if other, ok := schema.Types[name]; ok && renames[other.Name] == "" {
+			return nil, fmt.Errorf("type %s exists but is not the root type of that name", name)
+		}
+	}
+
+	renameType := func(t *ast.Type) *ast.Type {
+		var walk func(t *ast.Type) *ast.Type
+		walk = func(t *ast.Type) *ast.Type {
+			if t == nil {
+				return nil
+			}
+			cpy := *t
+			if newName, ok := renames[t.NamedType]; ok {
+				cpy.NamedType = newName
+			}
+			cpy.Elem = walk(t.Elem)
+			return &cpy
+		}
+		return walk(t)
+	}
+
+	res := *schema
+	res.Types = make(map[string]*ast.Definition, len(schema.Types))
+	for name, def := range schema.Types {
+		cpy := *def
+		if newName, ok := renames[name]; ok {
+			cpy.Name = newName
+		}
+		cpy.Fields = make(ast.FieldList, 0, len(def.Fields))
+		for _, f := range def.Fields {
+			fcpy := *f
+			fcpy.Type = renameType(f.Type)
+			fcpy.Arguments = make(ast.ArgumentDefinitionList, 0, len(f.Arguments))
+			for _, a := range f.Arguments {
+				acpy := *a
+				acpy.Type = renameType(a.Type)
+				fcpy.Arguments = append(fcpy.Arguments, &acpy)
+			}
+			cpy.Fields = append(cpy.Fields, &fcpy)
+		}
+		res.Types[cpy.Name] = &cpy
+	}
+	if schema.Query != nil {
+		res.Query = res.Types[common.QueryObjectName]
+	}
+	if schema.Mutation != nil {
+		res.Mutation = res.Types[common.MutationObjectName]
+	}
+	if schema.Subscription != nil {
+		res.Subscription = res.Types[common.SubscriptionObjectName]
+	}
+
+	renameKeys := func(m map[string][]*ast.Definition) map[string][]*ast.Definition {
+		out := make(map[string][]*ast.Definition, len(m))
+		for name, defs := range m {
+			if newName, ok := renames[name]; ok {
+				name = newName
+			}
+			for _, d := range defs {
+				out[name] = append(out[name], res.Types[lo.Ternary(renames[d.Name] != "", renames[d.Name], d.Name)])
+			}
+		}
+		return out
+	}
+	res.PossibleTypes = renameKeys(schema.PossibleTypes)
+	res.Implements = renameKeys(schema.Implements)
+
+	return &res, nil
 }
